@@ -41,11 +41,16 @@ def parsed_value_atom(p):
     return None
 
 
-def to_string_arg(p, ctxfrag):
-    for e in p.events:
-        if e.kind == "call" and e.name.endswith("to_string") and any(ctxfrag in c for c in e.ctx):
-            return e.args[0]
-    return None
+def to_string_arg(p, ctxfrag=None):
+    """argument of the to_string() that renders the new counter value on an existing-key path: the one whose
+    argument is computed from the parsed stored value (wherever the code puts it: closure, helper or inline)"""
+    v = parsed_value_atom(p)
+    cands = [e for e in p.events if e.kind == "call" and e.name.endswith("to_string")]
+    for e in cands:
+        a = e.args[0]
+        if v is not None and (v in atoms(a) or a == 0):
+            return a
+    return cands[-1].args[0] if cands else None
 
 
 def r1(ctx):
